@@ -475,6 +475,10 @@ size_t varintAdaptiveDecode(const uint8_t *src, uint64_t *values,
     case VARINT_ADAPTIVE_PFOR: {
         varintPFORMeta pforMeta;
         varintPFORReadMeta(data, &pforMeta);
+        if (pforMeta.count > maxCount) {
+            /* Not enough space in output buffer */
+            break;
+        }
         decoded = varintPFORDecode(data, values, &pforMeta);
 
         if (meta) {
